@@ -8,9 +8,11 @@
   translated expression by expression.  Every theorem below that mentions `gcCfg` or `CelloGen.Reg` is re-checked
   against the regenerated file on every run.
 
-  Assumptions, stated where used: live addresses pairwise distinct and 8-aligned (`okOp`, what malloc gives); plain destructors
-  (`noK`: destructors that delete other objects are covered by the model and the differential check, not by the history
-  theorem); sizes as natural numbers (no 2^64 wrap-around).
+  Assumptions, stated where used: live addresses pairwise distinct and 8-aligned (`okOp`, what malloc gives); sizes as natural
+  numbers (no 2^64 wrap-around); destructors delete but do not allocate managed objects.  `C17_registry_exact` is the history
+  theorem for plain destructors (`noK`), with a ledger that is a function of the history; `C17_registry_exact_destructors` /
+  `C17_progress_destructors` are its counterpart for destructors that delete other objects (`K`), where the ledger transition of
+  a collection is a relation (the order in which the reclaimed objects are finalised is the sweep's slot order).
 -/
 import Cello.Registry
 import CelloGen.Reg
@@ -21,6 +23,7 @@ import CelloProofs.Lemmas.RegistryRehash
 import CelloProofs.Lemmas.RegistryOps
 import CelloProofs.Lemmas.RegistryHistory
 import CelloProofs.Lemmas.RegistryKills
+import CelloProofs.Lemmas.RegistryKillsHist
 import CelloProofs.Lemmas.RegistryInvB
 
 namespace Cello.Registry
@@ -196,6 +199,40 @@ theorem C17_reach_wfp (r : Reg) (L : Ledger) (h : Reach gcCfg r L) : WFP gcCfg r
   have hwf := reach_wf gcCfg gcCfg_good r L h
   exact ⟨hwf.toWFP, by unfold pendList; rw [hwf.pend]; rfl⟩
 
+/-- **GC_Sweep with destructors that delete other objects** (`K`): from a state whose entries are the ledger's with mark
+    bits `mk`, the sweep always answers; the unmarked non-root objects are listed once each in some order `order`; the
+    finalisation loop — which skips the slots a destructor has struck off and finalises a struck-off object at once —
+    refines `absFinLoop` on (kept ledger, `order`) with the same deallocation trace; the final state is well formed for the
+    resulting ledger, with an empty pending list. -/
+theorem C17_sweep_destructors (K : Nat → List Nat) (r : Reg) (L : Ledger) (mk : Nat → Bool → Bool)
+    (h : Core gcCfg r L mk) (hc : r.nitems = occ r.slots) (hroom : Room r) (hb : Bounded r L) (hnd : (L.map Prod.fst).Nodup) :
+    ∃ (order : List Nat) (r' : Reg) (a' : AbsO) (t : List Nat),
+      gcSweep gcCfg K r = some (r', t) ∧
+      absFinLoop K r.running order.length 0 (collectBy L mk, order.map some) [] = some (a', t) ∧
+      WF gcCfg r' a'.1 ∧ r'.running = r.running ∧ order.Nodup ∧
+      (∀ p, p ∈ order ↔ ∃ b, (p, b) ∈ L ∧ (p, b) ∉ collectBy L mk) :=
+  gcSweep_simO gcCfg gcCfg_good K r L mk h hc hroom hb hnd
+
+/-- **C17 with destructors that delete other objects.**  `ReachK K` are the model states reached by a history of the same
+    operations when the destructor of `p` deletes the objects `K p`, each paired with a ledger obtained by the abstract
+    transitions `LedgerK` (deletion = `absExecO` on the ledger; collection = reclaim the unmarked non-roots in some order and run
+    `absFinLoop`).  In every such state the registry is exact for that ledger. -/
+theorem C17_registry_exact_destructors (K : Nat → List Nat) (r : Reg) (L : Ledger) (h : ReachK gcCfg K r L) : Exact gcCfg r L := by
+  have hwf := reachK_wf gcCfg K r L h
+  refine ⟨wf_mem gcCfg r L hwf, hwf.core.ents, hwf.core.inv.distinct, ⟨wf_count gcCfg r L hwf, hwf.count⟩,
+    hwf.bounded.bounds, hwf.core.inv, ?_, hwf.pend⟩
+  rcases Nat.eq_zero_or_pos r.n with h0 | hn
+  · exact Or.inl h0
+  · exact Or.inr (empty_of_room r hwf.count hn hwf.room)
+
+/-- … and every history can be continued: for every admissible operation the model answers (nested destructors terminate
+    within the model's fuel, no division by zero, no endless probe), some abstract ledger transition explains the step, and
+    the new state is again exact for the new ledger.  Hence every history has such a ledger evolution. -/
+theorem C17_progress_destructors (K : Nat → List Nat) (r : Reg) (L : Ledger) (h : ReachK gcCfg K r L) (op : Op) (hok : okOp L op) :
+    ∃ r' L', stepK gcCfg K r op = some r' ∧ LedgerK K r L op L' ∧ ReachK gcCfg K r' L' := by
+  obtain ⟨r', L', h1, h2, h3⟩ := stepK_wf gcCfg gcCfg_good K r L (reachK_wf gcCfg K r L h) op hok
+  exact ⟨r', L', h1, h2, ReachK.step h hok h1 h2 h3⟩
+
 /-! ### non-vacuity: concrete histories and states -/
 
 def demoA : Nat := 35184372088864
@@ -236,6 +273,27 @@ example :
 example : ∃ r, Reach gcCfg r [(8, false)] := by
   obtain ⟨r', _, h⟩ := C17_progress Reg.init [] Reach.init (.new 8 false [8]) ⟨by simp, by decide⟩
   exact ⟨r', h⟩
+
+/-- histories with destructors reach states with a non-empty ledger (hypothesis of `C17_registry_exact_destructors`): the
+    first allocation reaches the threshold, the collection it triggers marks it, and it survives -/
+example (K : Nat → List Nat) : ∃ r, ReachK gcCfg K r [(8, false)] := by
+  obtain ⟨r1, L1, _, hl1, h1⟩ := C17_progress_destructors K Reg.init [] ReachK.init (.new 8 false [8]) ⟨by simp, by decide⟩
+  cases hl1 with
+  | new_plain _ _ _ _ hth => exact absurd (by decide : Reg.init.nitems + 1 > Reg.init.mitems) hth
+  | new_stopped _ _ _ hrun => exact absurd hrun (by decide)
+  | new_collect _ _ _ _ _ _ hsw =>
+    obtain ⟨order, a', t, _, hmem, habs, hL⟩ := hsw
+    have hc : collectL [(8, false)] [8] = [(8, false)] := by decide
+    have ho : order = [] := by
+      apply List.eq_nil_iff_forall_not_mem.2
+      intro p hp
+      obtain ⟨b, hb1, hb2⟩ := (hmem p).1 hp
+      rw [hc] at hb2; exact hb2 hb1
+    subst ho
+    simp only [List.length_nil, absFinLoop, Option.some.injEq] at habs
+    have : L1 = [(8, false)] := by rw [hL, ← (Prod.mk.inj habs).1, hc]
+    rw [this] at h1
+    exact ⟨r1, h1⟩
 
 /-- a table with a wrapped cluster (key 5 displaced from home slot 2 into slot 0) meets the hypotheses of the lookup, erase and
     sweep theorems -/
